@@ -170,7 +170,7 @@ func c13MkEnv(v int) map[string]TV {
 		"n65": tvI(65), "i64": i64(12), "i32": {K: "int32", I: 6}, "u8": {K: "uint8", U: 200},
 		"f1": tvF([]float64{2.5, 1.5, 0.75, 4.5}[v]), "f2": tvF([]float64{0.5, 0.25, 0.5, 1.5}[v]), "f32": {K: "float32", F: 1.5}, "fi": tvF(4), "fbig": tvF(2500000), "fsmall": tvF(0.00001),
 		"s1": tvS([]string{"hi", "yo", "abc", "Hi"}[v]), "s2": tvS("bob ray"), "se": tvS(""), "sp": tvS("  pad  "),
-		"sn": tvS("42"), "sf": tvS("2.5"), "sb": tvS("true"), "sneg": tvS("-3"), "sbad": tvS("bad"), "sx": tvS("a<b&c"),
+		"selfname": tvS("selfname"), "sn": tvS("42"), "sf": tvS("2.5"), "sb": tvS("true"), "sneg": tvS("-3"), "sbad": tvS("bad"), "sx": tvS("a<b&c"),
 		"bt": tvB(true), "bf": tvB(false), "b1": tvB(v&1 == 1), "b2": tvB(v&2 == 2),
 		"nl": tvNil(), "t": tvS("tee"),
 		"m": tvMap(map[string]TV{"x": tvI(5 + v), "name": tvS("bob"), "ok": tvB(true), "off": tvB(false), "r": tvF(1.25),
